@@ -81,6 +81,9 @@ func c13Gen(t *rapid.T, tier Tier) interface{} {
 			if rapid.IntRange(0, 6).Draw(t, "rowh") == 0 {
 				rs = ` style="height:` + rapid.SampledFrom([]string{"30px", "5px"}).Draw(t, "rowheight") + `"`
 			}
+			if rapid.IntRange(0, 11).Draw(t, "rowdir") == 0 {
+				rs += ` dir="rtl"`
+			}
 			b.WriteString("<tr" + rs + ">")
 			for c, nc := 0, rapid.IntRange(1, 5).Draw(t, "ncells"); c < nc; c++ {
 				attrs := ""
@@ -89,6 +92,10 @@ func c13Gen(t *rapid.T, tier Tier) interface{} {
 				}
 				if rapid.IntRange(0, 3).Draw(t, "hasrs") == 0 {
 					attrs += fmt.Sprintf(` rowspan="%s"`, rapid.SampledFrom([]string{"2", "2", "3", "9", "0"}).Draw(t, "rs"))
+				}
+				if rapid.IntRange(0, 7).Draw(t, "celldir") == 0 {
+					// the direction of a cell is not the direction of its table: the columns stay where they are
+					attrs += ` dir="rtl"`
 				}
 				var st []string
 				switch rapid.IntRange(0, 7).Draw(t, "cellw") {
